@@ -101,6 +101,10 @@ type c18RefScn struct {
 
 func c18GenRef(r interface{ Intn(int) int }) c18RefScn {
 	sc := c18RefScn{CleanAtEnd: r.Intn(4) != 0, OwnerPre: c18RandDelay(r), OwnerCleans: r.Intn(5) != 0}
+	tight := r.Intn(3) != 0
+	if r.Intn(2) == 0 {
+		sc.OwnerPre = 8 + r.Intn(4) // the owner keeps its use for a while: clients work on a live resource
+	}
 	nclients, percl := 1+r.Intn(6), 2+r.Intn(7)
 	if r.Intn(10) == 0 {
 		nclients, percl = 16+r.Intn(33), 2
@@ -112,7 +116,7 @@ func c18GenRef(r interface{ Intn(int) int }) c18RefScn {
 			if r.Intn(2) == 0 {
 				op = c18RClean
 			}
-			ops = append(ops, c18RefOp{Op: op, Pre: c18RandDelay(r)})
+			ops = append(ops, c18RefOp{Op: op, Pre: c18PreDelay(r, tight)})
 		}
 		sc.Clients = append(sc.Clients, ops)
 	}
@@ -127,6 +131,7 @@ func c18RunRef(m *vk.M, idx int, sc c18RefScn) bool {
 		cblog = &c18OpLog{}
 		wg    sync.WaitGroup
 		start = make(chan struct{})
+		gate  = c18NewGate(int32(len(sc.Clients) + 1))
 	)
 	cbID := len(sc.Clients) + 1
 	res := NewRefResource(func() {
@@ -156,6 +161,7 @@ func c18RunRef(m *vk.M, idx int, sc c18RefScn) bool {
 			lg.add(ci, c18RefIn(c18RClean), call, 0, ret)
 		}
 		<-start
+		gate.wait()
 		for _, op := range ops {
 			c18Delay(op.Pre)
 			if op.Op == c18RClean && len(open) > 0 {
@@ -316,6 +322,7 @@ func c18RunLock(m *vk.M, idx int, sc c18LockScn) bool {
 		tryFails int64
 		wg       sync.WaitGroup
 		start    = make(chan struct{})
+		gate     = c18NewGate(int32(sc.Workers))
 	)
 	critical := func() {
 		if atomic.AddInt32(&inside, 1) > 1 {
@@ -334,6 +341,7 @@ func c18RunLock(m *vk.M, idx int, sc c18LockScn) bool {
 		go func() {
 			defer wg.Done()
 			<-start
+			gate.wait()
 			for i := 0; i < sc.Iters; i++ {
 				switch sc.Kind {
 				case "spin":
